@@ -499,7 +499,14 @@ impl Run {
         }
         {
             let n = cfg.n;
-            Run { cfg, net, srv, step: 0, log: Vec::new(), keep_log, nontrivial: false, gossip_cmds: HashMap::new(), ledger: vec![HashMap::new(); n], latest: vec![HashMap::new(); n], dns_table, dns_hist }
+            // the initial key-value handed to spawn_chitchat is the owner's first write
+            let mut ledger = vec![HashMap::new(); n];
+            let mut latest = vec![HashMap::new(); n];
+            for i in 0..n {
+                ledger[i].insert(("k".to_string(), 1u64), (format!("v{i}"), 0u8));
+                latest[i].insert("k".to_string(), 1u64);
+            }
+            Run { cfg, net, srv, step: 0, log: Vec::new(), keep_log, nontrivial: false, gossip_cmds: HashMap::new(), ledger, latest, dns_table, dns_hist }
         }
     }
 
